@@ -107,11 +107,13 @@ SchedBigProg(x) ==
 FaultBigCases == IF 3 \in TYPES THEN {[kind |-> "faultbig", n |-> n, few |-> FALSE] : n \in BigLens}
                                      \cup {[kind |-> "faultbig", n |-> 70000, few |-> TRUE]}      \* above 64 KiB in every tier, few plans
                                      \cup (IF Thorough THEN {[kind |-> "faultbig", n |-> 1052672, few |-> TRUE]} ELSE {})   \* above 1 MiB
+                                     \cup (IF Thorough THEN {[kind |-> "faultbig", n |-> 2097152, few |-> TRUE]} ELSE {})   \* four-byte remaining length
                  ELSE {}
 FaultBigProg(x) ==
   LET f == BigFrame(x.n)
       hl == Len(f) - x.n - 6
-      cuts == IF x.few THEN {hl + 7, Len(f) \div 2, Len(f) - 1, Len(f)} \cup (IF Len(f) > 1048600 THEN {hl + 1048576, hl + 1048575} ELSE {})   \* (a mebibyte of body)
+      cuts == IF x.few /\ Len(f) > 2097152 THEN {Len(f) \div 2, Len(f) - 1}      \* (2 MiB: two cuts only, the events are large)
+              ELSE IF x.few THEN {hl + 7, Len(f) \div 2, Len(f) - 1, Len(f)} \cup (IF Len(f) > 1048600 THEN {hl + 1048576, hl + 1048575} ELSE {})   \* (a mebibyte of body)
               ELSE {0, 1, 2, 3, hl - 1, hl, hl + 1, hl + 5, hl + 6, hl + 7, Len(f) \div 2, Len(f) - 1, Len(f)} \cap (0..Len(f))
       plans == SetToSeq({[chunks |-> cmp, fate |-> ft, with |-> w, cut |-> cut] :
                            cut \in cuts, ft \in {"eof", "err"}, w \in (IF x.few THEN {FALSE} ELSE BOOLEAN),
